@@ -279,6 +279,19 @@ def edit (w : World) : Edit → World
 
 def edits (w : World) (es : List Edit) : World := es.foldl edit w
 
+/-- what happens to a font between one completed save and the next: edits, and in-place saves that fail at some step
+(for either reason) -/
+inductive Event where
+  | edit (e : Edit)
+  | failedSave (k : Nat)
+deriving DecidableEq, Repr
+
+def event (w : World) : Event → World
+  | .edit e => edit w e
+  | .failedSave k => failAt .inPlace w k
+
+def events (w : World) (evs : List Event) : World := evs.foldl event w
+
 /-- what re-opening the UFO at `p` shows: components, and the listed glyphs with their files -/
 def reopen (w : World) (p : Nat) : Option (List Nat × List (Nat × Nat)) :=
   (lookup w.disk p).map (fun u => (u.comps, u.files.filter (fun x => x.1 ∈ u.listing)))
